@@ -31,6 +31,10 @@ pub fn gen_case(t: &mut Tape) -> Case {
     if t.chance(1, 2) {
         source.push_str(*t.pick(crate::prop::c07::EXTRAS));
     }
+    // names of the `prql` std module (the header is registered under the same name)
+    if t.chance(1, 5) {
+        source.push_str(*t.pick(&[" | derive {zver = prql.version}", " | derive {zver = std.prql.version}", " | filter prql.version != \"0\""]));
+    }
     source.push('\n');
     Case { source }
 }
